@@ -2,6 +2,8 @@ package props
 
 import (
 	"fmt"
+	"go/types"
+	"os"
 	"sort"
 	"strings"
 
@@ -386,7 +388,23 @@ func runC19(r *Run) {
 				continue
 			}
 			mt := kf.TB.Of(mu.Map).String()
-			if !strings.HasPrefix(mt, "new:map[string][]any") && !strings.HasPrefix(mt, "new:map[string][]interface") {
+			// (a locally made map from strings to lists, whatever its type is called)
+			ut := mu.Map.Type().Underlying().String()
+			if os.Getenv("SIDECHECK_DEBUG_C19") != "" {
+				fmt.Fprintln(os.Stderr, "C19 mapupdate", mt, "|", ut)
+			}
+			okMap := false
+			if m, isM := mu.Map.Type().Underlying().(*types.Map); isM {
+				if kb, isB := m.Key().Underlying().(*types.Basic); isB && kb.Kind() == types.String {
+					if sl, isS := types.Unalias(m.Elem()).Underlying().(*types.Slice); isS {
+						if _, isI := types.Unalias(sl.Elem()).Underlying().(*types.Interface); isI {
+							okMap = true
+						}
+					}
+				}
+			}
+			_ = ut
+			if !strings.HasPrefix(mt, "new:") || !okMap {
 				continue
 			}
 			c, isC := stripIface(mu.Value).(*ssa.Call)
